@@ -205,7 +205,7 @@ def execute(mat, ctx):
             texts = [amat["vector"]["seq"]] + [m["seq"] for m in amat["modules"]]
             # every documented error path gets its turn: an extra module sharing a start overhang with a supplied one, or
             # starting with the reverse complement of one (DuplicateModules, both causes), or chaining nowhere (UnusedModules)
-            twist = rng.choice(["none", "none", "same-start", "rc-start", "unrelated"])
+            twist = rng.choice(["none", "none", "same-start", "rc-start", "unrelated", "two-unrelated"])
             if twist != "none":
                 geom = refmodel.geometry(gen.enzyme(ename))
                 ovs = amat["overhangs"]
@@ -218,6 +218,9 @@ def execute(mat, ctx):
                         o5 = gen.gen_overhangs(rng, geom[2], 1, forbid=(geom[0], rc(geom[0])))[0]
                     o3 = gen.gen_overhangs(rng, geom[2], 1, forbid=(geom[0], rc(geom[0])))[0]
                     texts.append(gen.build_module(rng, geom, o5, o3, rng.randint(2, 12), rng.randint(0, 10))["seq"])
+                    if twist == "two-unrelated":
+                        extra = gen.gen_overhangs(rng, geom[2], 2, forbid=(geom[0], rc(geom[0])))
+                        texts.append(gen.build_module(rng, geom, extra[0], extra[1], rng.randint(2, 12), rng.randint(0, 10))["seq"])
                     ctx.hist("assembly_twist", twist)
                 except RuntimeError:
                     pass
